@@ -33,13 +33,15 @@ CHECKS['C16'] = dict(
     text='split_lines is verified against its contract (count, losslessness, '
          'every line terminated exactly once, clean last line, agreement of '
          'the two modes) for every non-empty byte string and each of the 10 '
-         'newline sequences the statement names; facts about bytes.split and '
-         'concatenation (B1-B6) are trusted axioms, differential-tested. An '
+         'newline sequences the statement names; facts about bytes.split '
+         '(B1-B3, B6) are trusted axioms, differential-tested; the '
+         'concatenation facts (B4, B5) are proved in Lean 4 on every run. An '
          'exhaustive small-scope enumeration is the labelled bounded stand-in.',
     design_ref='5/C16',
     technique='contract-based deductive verification: AST->VC symbolic '
               'execution with schema-instantiated sequence facts, discharged '
-              'by cvc5/z3',
+              'by cvc5/z3; the concatenation lemmas the VCs rely on proved '
+              'by induction in Lean 4 (kernel-checked on every run)',
     thorough=True)
 
 CHECKS['C10'] = dict(
